@@ -385,11 +385,11 @@ Fixpoint ut_loop (ns : list (Z * option Z * tstate * Z)) (pl : list (Z * pil)) (
           | None => ut_loop r pl resched
           | Some p =>
               match p_info p with
-              | None => (pl, resched, Some EKey)
+              | None => ut_loop r pl resched              (* if not info: continue *)
               | Some i =>
                   if memz uid (i_done i) then ut_loop r pl resched
                   else if tvalue st <=? tvalue T_AGENT_EXECUTING then ut_loop r pl resched
-                  else if negb (memz uid (i_tasks i)) then (pl, resched, Some ERuntime)
+                  else if negb (memz uid (i_tasks i)) then ut_loop r pl resched   (* not placed here: continue *)
                   else
                     let i' := mkInfo (i_hwm i) (i_used i - cores) (i_tasks i) (i_done i ++ [uid]) in
                     let pl1 := aset pid (mkPil (p_role p) (p_state p) (p_cores p) (Some i')) pl in
